@@ -75,6 +75,12 @@ Patterns == <<S(<<40>>), S(<<91>>), S(<<42>>), S(<<97, 40>>), S(<<43>>), S(<<63>
 Subjects == <<Var(N_s), Var(N_u), Var(N_w), S(<<97, 98, 99>>)>>
 FName(i) == <<102>> \o NatDigits(i)
 Sizes == <<41, 42, 43, 44, 255, 256, 257>>
+WideSizes == <<499, 500, 501, 542, 543, 1042>>
+TotalOnEmpty == <<ECall(N_min, <<Var(N_ys)>>), ECall(N_max, <<Var(N_ys)>>), ECall(N_len, <<Var(N_ys)>>), ECall(N_string, <<Var(N_ys)>>),
+                  ECall(N_min, <<ECall(N_diff, <<Var(N_xs), Var(N_xs)>>)>>), ECall(N_max, <<ECall(N_intersect, <<Var(N_xs), Var(N_ys)>>)>>),
+                  ECall(N_min, <<ECall(N_union, <<Var(N_ys), Var(N_ys)>>)>>), ECall(N_len, <<EMap(<<>>)>>), ECall(N_len, <<EList(<<>>)>>),
+                  ECall(N_get, <<Var(N_ys), EInt(0), EInt(1)>>), ECall(N_eqeq, <<Var(N_ys), ECall(N_diff, <<Var(N_xs), Var(N_xs)>>)>>),
+                  ECall(N_len, <<S(<<>>)>>), ECall(N_max, <<Var(N_xs)>>), ECall(N_min, <<Var(N_xs)>>)>>
 RECURSIVE DeepList(_), DeepAdd(_)
 DeepList(n) == IF n = 0 THEN EInt(1) ELSE EList(<<DeepList(n - 1)>>)
 DeepAdd(n) == IF n = 0 THEN EInt(1) ELSE Add(EInt(1), DeepAdd(n - 1))       \* right-nested: n live operands on the VM stack
@@ -102,6 +108,11 @@ PartialProgs ==
     \o Prod2(Patterns, Subjects, LAMBDA p, s : ECall(N_match, <<p, s>>))
     \o Map1(IdxPool, LAMBDA i : ECall(N_andand, <<Lt(i, ECall(N_len, <<Var(N_xs)>>)), Gt(ESub(Var(N_xs), i), EInt(0))>>))
     \o Concat(Map1(Sizes, SizeFamily))
+    \o TotalOnEmpty
+    \* more live operands than the VM stack's growth step
+    \o Concat(Map1(WideSizes, LAMBDA n : <<ECall(N_len, <<EList(Rep(EInt(1), n))>>), ESub(EList(Rep(EInt(1), n)), EInt(n - 1)),
+                                              ECall(N_len, <<EMap([i \in 1..(n \div 2) |-> EPair(EInt(i), EInt(i))])>>),
+                                              Add(EInt(1), ECall(N_len, <<EList(Rep(EInt(2), n))>>))>>))
     \* nesting depth (TLC's JSON reader stops at 255 nested brackets, i.e. tree depth ~120)
     \o Concat(Map1(<<41, 42, 43, 44, 100>>, LAMBDA n : <<DeepList(n), DeepAdd(n), ECall(N_len, <<DeepList(n)>>)>>))
 
@@ -121,6 +132,11 @@ NumOps2 == <<N_plus, N_minus, N_star, N_slash, N_percent, N_caret, N_gt, N_ge, N
 \* tolerance edge: x against x + j * 2^-32 ; 1e-9 lies between j = 4 and j = 5
 EdgeBases == <<<<0, 0>>, <<1, 0>>, <<201, 1>>, <<3, 0>>>>
 EdgePairs == Prod2(EdgeBases, <<0, 1, 3, 4, 5, 6, 8>>, LAMBDA bs, j : <<Eps(bs[1], bs[2], 0), Eps(bs[1], bs[2], j)>>)
+\* the tolerance itself: differences of exactly 1e-9
+TauE(t) == ENum(Tau(t))
+TauPairs == <<<<EInt(0), TauE(1)>>, <<TauE(1), TauE(2)>>, <<TauE(1), TauE(1)>>, <<TauE(2), TauE(4)>>, <<TauE(1), TauE(4)>>,
+              <<Neg(TauE(1)), EInt(0)>>, <<Neg(TauE(1)), TauE(1)>>, <<EInt(1), TauE(1)>>, <<Eps(0, 0, 4), TauE(1)>>, <<Eps(0, 0, 5), TauE(1)>>,
+              <<Eps(0, 0, 9), TauE(2)>>>>
 CmpOps == <<N_gt, N_ge, N_lt, N_le, N_eqeq, N_ne>>
 BigPool == <<TwoTo53,
              Big(FALSE, <<9,0,0,7,1,9,9,2,5,4,7,4,0,9,9,4>>, <<57,48,48,55,49,57,57,50,53,52,55,52,48,57,57,52>>),
@@ -157,6 +173,8 @@ BuiltinProgs(size) ==
   Concat(Map1(NumOps1, LAMBDA f : Calls1f(f, NP)))
     \o Concat(Map1(NumOps2, LAMBDA f : Calls2f(f, NP, NP)))
     \o Concat(Map1(CmpOps, LAMBDA f : Concat(Map1(EdgePairs, LAMBDA pr : <<ECall(f, <<pr[1], pr[2]>>), ECall(f, <<pr[2], pr[1]>>)>>))))
+    \o Concat(Map1(CmpOps \o <<N_max, N_min, N_minus, N_plus>>, LAMBDA f : Concat(Map1(TauPairs, LAMBDA pr : <<ECall(f, <<pr[1], pr[2]>>), ECall(f, <<pr[2], pr[1]>>)>>))))
+    \o Map1(TauPairs, LAMBDA pr : ECall(N_string, <<EList(<<pr[1], pr[2]>>)>>))
     \o Concat(Map1(BigOps1, LAMBDA f : Calls1f(f, BigPool)))
     \o Concat(Map1(CmpOps \o <<N_max, N_min>>, LAMBDA f : Calls2f(f, BigPool, BigPool)))
     \o Map1(BigPool, LAMBDA x : EList(<<x>>))
@@ -183,7 +201,8 @@ BuiltinProgs(size) ==
          EList(<<Var(N_xs), Var(N_xs)>>), ECall(N_string, <<EList(<<Var(N_xs), Var(N_xs)>>)>>)>>
 
 (* ------------------------------------------------------------------ C06 *)
-PoisonNum == <<ESub(Var(N_xs), EInt(99)), ECall(N_percent, <<EInt(1), EInt(0)>>), ESub(Var(N_m), S(<<122, 122>>))>>
+PoisonNum == <<ESub(Var(N_xs), EInt(99)), ECall(N_percent, <<EInt(1), EInt(0)>>), ESub(Var(N_m), S(<<122, 122>>)),
+               EMem(ESub(Var(N_os), EInt(99)), N_a), EMem(T(9, Var(N_ob)), N_a)>>
 PoisonBool == Map1(PoisonNum, LAMBDA p : Gt(p, EInt(0)))
 Bools == <<EBool(TRUE), EBool(FALSE)>>
 CondFns == <<N_if, N_lif>>
@@ -196,6 +215,14 @@ LazyProgs ==
     \o Prod3(AndOr, Bools, Bools, LAMBDA f, c, d : ECall(f, <<T(1, c), T(2, d)>>))
     \o Prod3(AndOr, Bools, PoisonBool, LAMBDA f, c, p : ECall(f, <<T(1, c), p>>))
     \o Prod3(AndOr, Bools, PoisonBool, LAMBDA f, c, p : ECall(f, <<p, T(1, c)>>))
+    \* literal operands next to effectful / failing ones
+    \o Prod3(AndOr, Bools, Bools, LAMBDA f, c, d : ECall(f, <<T(1, c), d>>))
+    \o Prod3(AndOr, Bools, Bools, LAMBDA f, c, d : ECall(f, <<d, T(1, c)>>))
+    \o Prod3(AndOr, PoisonBool, Bools, LAMBDA f, p, d : ECall(f, <<p, d>>))
+    \o Prod3(AndOr, PoisonBool, Bools, LAMBDA f, p, d : ECall(f, <<d, p>>))
+    \o Prod3(CondFns, Bools, PoisonNum, LAMBDA f, c, p : ECall(f, <<c, p, EInt(2)>>))
+    \o Prod3(CondFns, Bools, PoisonNum, LAMBDA f, c, p : ECall(f, <<c, EInt(1), p>>))
+    \o Prod3(CondFns, PoisonBool, Bools, LAMBDA f, p, c : ECall(f, <<p, EInt(1), EInt(2)>>))
     \* nested lazy calls: thunks that call lazy functions
     \o Prod3(Bools, Bools, PoisonNum, LAMBDA c, d, p : If(T(1, c), If(T(2, d), T(3, EInt(1)), p), T(4, EInt(2))))
     \o Prod3(Bools, Bools, PoisonNum, LAMBDA c, d, p : If(T(1, c), p, ECall(N_lif, <<T(2, d), p, T(3, EInt(7))>>)))
@@ -234,8 +261,18 @@ LazyProgs ==
          If(Gt(ECall(N_len, <<Var(N_ys)>>), EInt(0)), ESub(Var(N_ys), EInt(0)), Neg(EInt(1))),
          If(ECall(N_ne, <<Var(N_z), EInt(0)>>), ECall(N_percent, <<EInt(7), Var(N_z)>>), EInt(0))>>
 
+(* ------------------------------------------------------------------ C05: registration orders *)
+GArgs == <<Var(N_n), Var(N_s), Var(N_xs), Var(N_ss), Var(N_ys), EList(<<>>), EList(<<EInt(1)>>), Var(N_ob), Var(N_m), Var(N_mx),
+           EInt(1), S(<<97>>), EList(<<Var(N_xs)>>)>>
+OverProgs == Concat(Map1(<<"E1a", "E1b", "E1c", "E1d">>, LAMBDA id :
+                 Map1(GArgs, LAMBDA a : InEnvId(ECall(N_g, <<a>>), id))
+                   \o Map1(GArgs, LAMBDA a : InEnvId(Add(ECall(N_g, <<a>>), EInt(10)), id))
+                   \o Map1(GArgs, LAMBDA a : InEnvId(Add(ECall(N_g, <<a>>), S(<<33>>)), id))
+                   \o <<InEnvId(ECall(N_g, <<>>), id), InEnvId(ECall(N_g, <<Var(N_n), Var(N_n)>>), id),
+                        InEnvId(ECall(N_len, <<Var(N_xs)>>), id), InEnvId(ECall(N_get, <<Var(N_xs), EInt(0), EInt(9)>>), id)>>))
+
 (* ------------------------------------------------------------------ C16 *)
-Opts == <<Var(N_mx), Var(N_mj)>>
+Opts == <<Var(N_mx), Var(N_mj), Var(N_ms)>>
 Good == <<Var(N_n), Var(N_s), Var(N_b), Var(N_tm), Var(N_xs), Var(N_m), Var(N_ob), EInt(1), S(<<97>>)>>
 OptProgs ==
   Concat(Map1(Names1, LAMBDA f : Calls1f(f, Opts)))
@@ -250,4 +287,17 @@ OptProgs ==
     \o Map1(Opts, LAMBDA o : Add(ECall(N_get, <<EMem(EObj(<<EFld(N_a, o)>>), N_a), EInt(5)>>), EInt(1)))
     \o Map1(Opts, LAMBDA o : ECall(N_get, <<ESub(EList(<<o, Var(N_mx)>>), EInt(1)), EInt(5)>>))
     \o Map1(Opts, LAMBDA o : ECall(N_get, <<ECall(N_get, <<EList(<<o>>), EInt(3), Var(N_mj)>>), EInt(5)>>))
+    \o Prod2(Opts, Opts, LAMBDA o, g : ECall(N_get, <<ESub(EList(<<o, g>>), EInt(1)), EInt(0)>>))
+    \o Prod2(Opts, Opts, LAMBDA o, g : ECall(N_get, <<ESub(EList(<<o, g>>), EInt(1)), S(<<100>>)>>))
+    \o Prod2(Opts, Opts, LAMBDA o, g : ECall(N_get, <<If(Var(N_c), o, g), EInt(0)>>))
+    \o Prod2(Opts, Opts, LAMBDA o, g : ECall(N_get, <<ECall(N_pick, <<o, g>>), EInt(0)>>))
+    \o Prod2(Opts, Opts, LAMBDA o, g : ECall(N_union, <<EList(<<o>>), EList(<<g>>)>>))
+    \o Prod2(Opts, Opts, LAMBDA o, g : ESub(EMap(<<EPair(S(<<107>>), o), EPair(S(<<106>>), g)>>), S(<<106>>)))
+    \* optionals nested in host data: absent payloads, present payloads
+    \o <<ECall(N_get, <<ESub(Var(N_lo), EInt(0)), EInt(9)>>), ECall(N_get, <<ESub(Var(N_lo), EInt(1)), EInt(9)>>),
+         ECall(N_get, <<EMem(Var(N_oo), N_a), EInt(9)>>), Add(ECall(N_get, <<EMem(Var(N_oo), N_a), EInt(9)>>), EInt(1)),
+         Add(EMem(Var(N_oo), N_a), EInt(1)), Add(ESub(Var(N_lo), EInt(1)), EInt(1)),
+         ECall(N_len, <<Var(N_lo)>>), ECall(N_string, <<Var(N_lo)>>), ECall(N_string, <<Var(N_oo)>>),
+         ECall(N_eqeq, <<Var(N_lo), Var(N_lo)>>), ECall(N_union, <<Var(N_lo), Var(N_lo)>>),
+         ECall(N_get, <<ECall(N_get, <<Var(N_lo), EInt(7), Var(N_mx)>>), EInt(3)>>), EMem(Var(N_oo), N_b)>>
 =============================================================================
